@@ -966,11 +966,16 @@ class PureScheduler:                                    # pylint: disable=r0902
             return await self._co_run()
         except (asyncio.CancelledError, Exception):
             # pass the cancellation on to our own jobs, wait for them,
-            # and shut them down, so that nothing outlives this scheduler
-            await self._tidy_tasks(
-                [job._task for job in self.jobs
-                 if job._task is not None and not job._task.done()])
-            await self.co_shutdown()
+            # and shut them down, so that nothing outlives this scheduler;
+            # the shutdown takes place even if we get cancelled while
+            # waiting for our jobs - after a failed orchestration the
+            # cancellation may still be to come
+            try:
+                await self._tidy_tasks(
+                    [job._task for job in self.jobs
+                     if job._task is not None and not job._task.done()])
+            finally:
+                await self.co_shutdown()
             raise
 
     async def _abort_on_timeout(self, pending):
